@@ -172,4 +172,5 @@ func registerIntrinsics(vm *VM) {
 	registerAtomic(vm)
 	registerSyncPool(vm)
 	registerMapsPkg(vm)
+	registerStringsBuilder(vm)
 }
